@@ -2,7 +2,8 @@
  * ocaml/drv_lh.ml.
  *   mode A: lh_table_* driven directly, integer keys, hash values from the script line
  *   mode B: json_object_object_* through the public API, string keys, lh_char_hash /
- *           perl-like hash (json_global_set_string_hash) or scripted hash values
+ *           perl-like hash (json_global_set_string_hash) or scripted hash values; the
+ *           selection may change while objects are alive (op h), two objects coexist (op o)
  * After every step: lookup of every key of the universe, length, table size, and the
  * iteration by every mechanism (mode B prints one list when all mechanisms agree and
  * ITERDIFF/... otherwise). */
@@ -315,11 +316,24 @@ static void obs_b(struct json_object *obj, const char *ret)
 	for (i = 0; i < 6; i++) sb_free(&m[i]);
 }
 
+/* json_object_new_object under the CURRENT global selection, then the case's initial size */
+static struct json_object *new_obj(int hsel, int size)
+{
+	struct json_object *o = json_object_new_object();
+	if (!o) return NULL;
+	if (hsel == 2) json_object_get_object(o)->hash_fn = b_hash;
+	if (size != 16 && lh_table_resize(json_object_get_object(o), size) != 0) {
+		json_object_put(o);
+		return NULL;
+	}
+	return o;
+}
+
 static void mode_b(char *rest)
 {
 	char *f[5], *tok, *save = NULL, *p;
-	struct json_object *obj;
-	int i, hsel, size;
+	struct json_object *obj, *pair[2] = {NULL, NULL};
+	int i, hsel, size, cur = 0;
 	size_t limit;
 	for (i = 0; i < 4; i++) {
 		f[i] = rest;
@@ -350,12 +364,8 @@ static void mode_b(char *rest)
 	}
 	xa_reset();
 	json_global_set_string_hash(hsel == 1 ? JSON_C_STR_HASH_PERLLIKE : JSON_C_STR_HASH_DFLT);
-	obj = json_object_new_object();
+	obj = pair[0] = new_obj(hsel, size);
 	if (!obj) { printf("NOMEM"); goto done; }
-	if (hsel == 2) json_object_get_object(obj)->hash_fn = b_hash;
-	if (size != 16 && lh_table_resize(json_object_get_object(obj), size) != 0) {
-		printf("NOMEM"); json_object_put(obj); goto done;
-	}
 	obs_b(obj, "new");
 	for (tok = strtok_r(f[4], ";", &save); tok; tok = strtok_r(NULL, ";", &save)) {
 		char retbuf[32];
@@ -386,6 +396,17 @@ static void mode_b(char *rest)
 			json_object_object_del(obj, keystr[atoi(tok + 1)]);
 			ret = 0;
 			break;
+		case 'h':
+			/* the global selection changes while the objects are alive */
+			ret = json_global_set_string_hash(atoi(tok + 1));
+			break;
+		case 'o':
+			cur = 1 - cur;
+			if (!pair[cur]) pair[cur] = new_obj(hsel, size);
+			if (!pair[cur]) { printf("OUT-nomem"); goto out; }
+			obj = pair[cur];
+			ret = 0;
+			break;
 		case 'x': {
 			struct sb vis = {0};
 			int guard = 0;
@@ -408,7 +429,8 @@ static void mode_b(char *rest)
 		obs_b(obj, retbuf);
 	}
 out:
-	json_object_put(obj);
+	if (pair[0]) json_object_put(pair[0]);
+	if (pair[1]) json_object_put(pair[1]);
 done:
 	for (i = 0; i < nkeys; i++) { (free)(keystr[i]); keystr[i] = NULL; }
 	json_global_set_string_hash(JSON_C_STR_HASH_DFLT);
